@@ -1131,7 +1131,9 @@ class Mps(MatrixProduct):
 
         if self.evolve_config.tdvp_cmf_midpoint:
             # mps at t/2 (1st order) as environment
-            orig_config = self.evolve_config.copy()
+            # switch the options on a copy: the config object may be shared with other states
+            orig_config = self.evolve_config
+            self.evolve_config = orig_config.copy()
             self.evolve_config.tdvp_cmf_midpoint = False
             self.evolve_config.tdvp_cmf_c_trapz = False
             self.evolve_config.adaptive = False
